@@ -224,6 +224,13 @@ def run(ctx):
                           "this reader rejects or mis-reads although noodles wrote it" % f.root, f.loc())
     ctx.floor("C09.R9", "single-character extractors in the VCF readers", n9, 6)
 
+    ctx.rule("C09.R14", "the header parser finds the closing quotation mark of a quoted field value with a scan that knows the escape character "
+                        "and carries an escape state (the writer emits `\\\\` and `\\\"`; a look-behind of one byte takes the second half of an "
+                        "escaped backslash for an escape and does not close a value that ends with a backslash) — the rule of C18.R3, applied "
+                        "to parse_escaped_string")
+    from .c18 import quote_scanner_rule
+    quote_scanner_rule(ctx, "C09.R14", "noodles_vcf::header::parser::record::value::map::field::value::string::parse_escaped_string", "VCF header")
+
     ctx.rule("C09.R4", "impl table: variant_end / variant_span are single provided implementations (lazy and eager share them)")
     tr = fb.traits.get(V + "variant::record::Record")
     if tr is None:
